@@ -88,15 +88,17 @@ def run(ctx):
     # ---- bernoulli_lh_ratio = product formula
     for _ in range(ctx.n(60, 600)):
         po, pa = Fr(ctx.rng.randint(1, 15), 16), Fr(ctx.rng.randint(1, 15), 16)
-        x = [ctx.rng.randint(0, 1) for _ in range(ctx.rng.randint(1, 14))]
-        r = guarded(S.bernoulli_lh_ratio, np.array(x), float(po), float(pa))
+        x = [ctx.rng.randint(0, 1) for _ in range(ctx.rng.choice([1, 1, 2, 3, ctx.rng.randint(1, 14)]))]
+        cont = ctx.rng.choice(["ndarray", "list", "tuple", "bool-array"]); ctx.count("lh_ratio-input-" + cont)
+        xin = {"ndarray": np.array(x), "list": list(x), "tuple": tuple(x), "bool-array": np.array(x, dtype=bool)}[cont]
+        r = guarded(S.bernoulli_lh_ratio, xin, float(po), float(pa))
         prod = Fr(1)
         for b in x:
             prod *= (pa / po) if b else ((1 - pa) / (1 - po))
         ctx.case(("lr", po, pa, tuple(x)), True)
         ctx.count("bernoulli_lh_ratio")
         if r[0] != "ok" or not close(r[1], prod):
-            ctx.violation("oracle", {"call": "bernoulli_lh_ratio", "x": x, "po": po, "pa": pa, "returned": r[1:], "expected": prod}, site="bernoulli_lh_ratio")
+            ctx.violation("oracle", {"call": "bernoulli_lh_ratio", "x": x, "given_as": cont, "po": po, "pa": pa, "returned": r[1:], "expected": prod}, site="bernoulli_lh_ratio")
         ops.append(f"bernlr|{rat(po)}|{rat(pa)}|{ints(x)}"); meta.append((("lrm", po, pa, tuple(x)), r[1] if r[0] == "ok" else None, None))
     # ---- long samples: the closed form must still be the product of per-observation ratios, and sprt must not
     #      decide where every exact prefix ratio stays inside (A, B)
